@@ -69,6 +69,28 @@ def run(tier):
                                    describe="write buffer (write_buffer.rs) trace rejected: {what}", strip=())
     nt += sum(1 for evs in runs.values() if any(e["a"] == "wflush" and not e["ok"] for e in evs))
     os.remove(tr)
+    # the production pipeline around StreamingPersistence (integration.rs: delta sink -> bridge -> persistence actor):
+    # crash images judged by the call-level rules; what a graceful shutdown must leave behind is an extension
+    tr = os.path.join(wd, "pipeline.ndjson")
+    vlib.vh(["stream", "pipeline", "--seed", vlib.seed() * 3 + 1, "--n", 2000 if tier == "thorough" else 200, "--out", tr])
+    verdicts, done, _ = vlib.validate("StreamTrace", "StreamTrace", tr, wd)
+    pruns = vlib.load_runs(tr)
+    rep.cov["traces_validated_against_impl"] += len(pruns)
+    rep.cov["evaluations"] += done[0]
+    ext = 0
+    firstv = {}
+    for v in verdicts:
+        firstv.setdefault(v["run"], v)
+    for r, v in firstv.items():
+        if v.get("what", "").startswith("extension:"):
+            ext += 1
+            continue
+        evs = [{k: e[k] for k in e if k not in ("state", "rv")} for e in pruns[r]]
+        rep.classify(None, describe.format(what=v.get("what", "rejected")) + " (persistence pipeline)", {"source": "pipeline", "failed_check": v.get("what"), "at_event": v.get("l"), "events": evs[:300]}, f"pipeline run {r}")
+    if ext:
+        vlib.log(f"EXTENSION-OBSERVATION (not a verdict on C12): after a graceful shutdown of the persistence pipeline an update that was sent is not recoverable ({ext} runs)")
+    rep.notes["pipeline_family"] = {"runs": len(pruns), "events": done[0], "extension_observations": ext}
+    os.remove(tr)
     rep.cov["distinct_nontrivial"] = nt
     rep.cov["rule"] = ("a case is one workload of push/flush/compact on the real code with a scripted fault; after every "
                        "mutating store call the real recovery runs on the image; non-trivial = a fault took effect and at "
